@@ -99,6 +99,80 @@ pub fn gen_case(r: &mut Prng) -> Case {
     case
 }
 
+/// fault storm: one process lifetime in which MANY evaluations fail (every n-th handler
+/// invocation), at varying nesting depth, before the follow-up phase
+pub fn storm_case(r: &mut Prng) -> Case {
+    let mut case = Case::new("C15-storm");
+    let hp = case.add_handler(HandlerSpec::plain(HKind::CtxFunc, Ret::Const(Val::int(3))));
+    let hb = case.add_handler(HandlerSpec::plain(HKind::CtxFunc, Ret::Const(Val::int(4))));
+    let hg = case.add_handler(HandlerSpec::plain(HKind::Func, Ret::Const(Val::int(5))));
+    let hz = case.add_handler(HandlerSpec::plain(HKind::Prefix, Ret::Const(Val::int(6))));
+    let hi = case.add_handler(HandlerSpec::plain(HKind::Infix, Ret::Const(Val::int(7))));
+    let hq = case.add_handler(HandlerSpec::plain(HKind::Postfix, Ret::Const(Val::int(8))));
+    case.slots.push(CtxSpec {
+        vars: vec![("x".into(), Val::int(1)), ("y".into(), Val::int(2))],
+        funcs: vec![("p1".into(), hp), ("b2".into(), hb)],
+    });
+    case.pre.push(Op::RegFn { name: "sg".into(), h: hg });
+    case.pre.push(Op::RegPre { name: "sz".into(), h: hz });
+    case.pre.push(Op::RegIn { name: "si".into(), prec: 115, setter: false, right: false, h: hi });
+    case.pre.push(Op::RegPost { name: "sq".into(), h: hq });
+    let observable = |r: &mut Prng| -> Expr {
+        match r.below(6) {
+            0 => call("p1", vec![rf("x")]),
+            1 => rf("b2"),
+            2 => call("sg", vec![lit_i(1), rf("y")]),
+            3 => un("sz", lit_i(2)),
+            4 => bin("si", rf("x"), lit_i(2)),
+            _ => post(rf("y"), "sq"),
+        }
+    };
+    let wrap = |r: &mut Prng, e: Expr| -> Expr {
+        match r.below(6) {
+            0 => bin("+", lit_i(1), e),
+            1 => bin("*", e, lit_i(2)),
+            2 => call("max", vec![e, lit_i(1)]),
+            3 => tern(lit_b(true), e, lit_i(0)),
+            4 => un("-", e),
+            _ => bin("-", e, observable(r)),
+        }
+    };
+    let nprog = 2 + r.usize(3);
+    let mut progs = vec![];
+    for _ in 0..nprog {
+        let mut e = observable(r);
+        for _ in 0..(1 + r.usize(9)) {
+            e = wrap(r, e);
+        }
+        let mut stmts = vec![bin("=", rf("acc"), e)];
+        if r.chance(1, 2) {
+            stmts.push(rf("acc"));
+        }
+        progs.push(Prog::Stmts(stmts));
+    }
+    let n = 20 + r.usize(70);
+    let mut ops = vec![];
+    for _ in 0..n {
+        let prog = r.pick(&progs).clone();
+        ops.push(if r.chance(1, 3) {
+            Op::ParseExec { prog, ctx: CtxRef::Slot(0), times: 1 }
+        } else {
+            Op::Exec { prog, ctx: CtxRef::Slot(0) }
+        });
+    }
+    // a healthy deep evaluation at the end of the storm
+    ops.push(Op::Exec { prog: progs[0].clone(), ctx: CtxRef::Slot(0) });
+    case.threads.push(ops);
+    case.fault = Some(Fault {
+        task: 1,
+        k: r.usize(3),
+        kind: if r.chance(1, 2) { FaultKind::Panic } else { FaultKind::Err },
+        every: 1 + r.usize(3),
+    });
+    follow_up(r, &mut case);
+    case
+}
+
 fn schedules(r: &mut Prng, case: &Case) -> Vec<SchedSpec> {
     let mut v = vec![SchedSpec::Lowest];
     if case.threads.len() > 1 {
@@ -139,7 +213,8 @@ impl Prop for C15 {
                    operators) evaluated on a kept context by simulated thread 0, in a third of the cases concurrently with a bystander thread, followed by \
                    a follow-up phase (context accessors, fault-free evaluation on the same context, registrations and evaluations of all four kinds on the \
                    same and on another thread, describe()); for every handler-invocation index k of the program two runs: Err at k and panic at k \
-                   (all fault positions enumerated per program; programs and schedules sampled). evaluations = simulated executions; \
+                   (all fault positions enumerated per program; programs and schedules sampled); every eighth case is a fault storm: 20..90 evaluations of \
+                   deeply nested programs in one process lifetime with every n-th handler invocation failing (Err or panic), then the follow-up. evaluations = simulated executions; \
                    distinct_nontrivial = distinct (program, k, fault kind) triples in which the fault actually fired",
             assumptions: &[
                 "poisoning is real std::sync::Mutex poisoning (the shuttle mutex wraps a std mutex); a lock left held is reported by the scheduler as a deadlock, not by a watchdog",
@@ -156,6 +231,7 @@ impl Prop for C15 {
                 "fault_in_postfix_op",
                 "fault_at_last_invocation",
                 "bystander_overlaps_fault",
+                "fault_storm",
             ],
         }
     }
@@ -166,6 +242,32 @@ impl Prop for C15 {
 
     fn run_index(&self, idx: u64, seed: u64, _tier: Tier, rt: &mut Rt) -> Vec<Violation> {
         let mut r = Prng::derive(seed, "C15.case", idx);
+        if idx % 8 == 7 {
+            // fault storm: many failing evaluations in one process lifetime
+            let case = Arc::new(storm_case(&mut r));
+            rt.case_seen(case.fingerprint());
+            if let Err(why) = preflight(&case, rt) {
+                rt.skip(&format!("preflight: {}", why.split_whitespace().take(3).collect::<Vec<_>>().join(" ")));
+                return vec![];
+            }
+            let out = rt.sim(&case, &SchedSpec::Lowest);
+            let nf = out.log.iter().filter(|e| matches!(e, Ev::Fault { .. })).count() as u64;
+            let kind = case.fault.as_ref().unwrap().kind;
+            rt.fired(if kind == FaultKind::Err { "handler_err" } else { "handler_panic" }, nf);
+            rt.fired("fresh_process", 1);
+            if nf >= 2 {
+                rt.probe("fault_storm");
+                rt.nontrivial(case.fingerprint());
+            }
+            return match judge_vs_model(&case, &out, rt) {
+                Judged::Violated(cl, d) => vec![violation("C15", &cl, d, seed, idx, &case, &out)],
+                Judged::Skipped(u) => {
+                    rt.skip(&format!("unmodelled: {}", u.split(':').next().unwrap_or("")));
+                    vec![]
+                }
+                Judged::Held(_) => vec![],
+            };
+        }
         let base = Arc::new(gen_case(&mut r));
         rt.case_seen(base.fingerprint());
         if let Err(why) = preflight(&base, rt) {
@@ -210,7 +312,7 @@ impl Prop for C15 {
         for k in 0..n {
             for kind in [FaultKind::Err, FaultKind::Panic] {
                 let mut c = (*base).clone();
-                c.fault = Some(Fault { task: 1, k, kind });
+                c.fault = Some(Fault::once(1, k, kind));
                 let c = Arc::new(c);
                 for spec in &specs {
                     let out = rt.sim(&c, spec);
